@@ -28,6 +28,7 @@ struct EP {
     ISocketStream* s = nullptr; int fd = -1; uint64_t tmo = -1ULL;
     int users = 2; bool shut_rd = false, shut_wr = false, released = false;
     uint64_t final_tx = 0, final_rx = 0;
+    int in_call = 0;            // threads of this endpoint currently inside a stream call
 };
 struct Dir { uint32_t salt; uint64_t w_off = 0, r_off = 0; bool r_eof = false; };
 struct Conn { EP ep[2]; Dir dir[2]; bool reset = false; uint64_t reset_at_us = 0; volatile bool accepted = false, connected = false; };
@@ -121,6 +122,8 @@ void writer(int id, int ci, int d) {
         ssize_t rc; int e;
         {
             phx::Where w(rec, kind_name(o.kind), i);
+            if (me.in_call) sim::probe("both_directions_of_one_stream_in_flight");
+            me.in_call++;
             errno = 0;
             switch (o.kind) {
                 case O_WRITE: rc = me.s->write(b.iov[0].iov_base, o.n); break;
@@ -129,6 +132,7 @@ void writer(int id, int ci, int d) {
                 default: rc = me.s->send(b.iov.data(), (int)b.iov.size()); break;
             }
             e = errno;
+            me.in_call--;
         }
         uint64_t delta = simk::tx_accepted(me.fd) - acc0;
         bool broken = C.reset || me.shut_wr || peer.shut_rd || peer.released;
@@ -184,6 +188,8 @@ void reader(int id, int ci, int d) {
         ssize_t rc; int e;
         {
             phx::Where w(rec, kind_name(o.kind), i);
+            if (me.in_call) sim::probe("both_directions_of_one_stream_in_flight");
+            me.in_call++;
             errno = 0;
             switch (o.kind) {
                 case O_READ: rc = me.s->read(b.iov[0].iov_base, o.n); break;
@@ -192,6 +198,7 @@ void reader(int id, int ci, int d) {
                 default: rc = me.s->recv(b.iov.data(), (int)b.iov.size()); break;
             }
             e = errno;
+            me.in_call--;
         }
         uint64_t delta = simk::rx_consumed(me.fd) - c0;
         sim::note("op %zu conn %d dir %d: %s(%llu bytes, %zu iovec) = %zd errno %d; kernel handed out %llu; stream offset %llu", i, ci, d, kind_name(o.kind), (unsigned long long)o.n, b.iov.size(),
